@@ -61,7 +61,8 @@ func isTimeout(err error) bool {
 	if errors.As(err, &ne) && ne.Timeout() {
 		return true
 	}
-	return strings.Contains(err.Error(), "timeout") || strings.Contains(err.Error(), "time out")
+	e := strings.ToLower(err.Error())
+	return strings.Contains(e, "timeout") || strings.Contains(e, "time out")
 }
 
 func errClass(err error) string {
